@@ -124,7 +124,32 @@ func loadDeb
     invariant contents != nil && (forall k string :: has(contents, k) ==> contents[k] != nil)
     decreases len(fileOf(archive.in)) + 1 - archive.offset
 
+
+// ---------- C16: the signature is checked over exactly the members the loader read, against the supplied keyring ----------
+
+// the complete content of an archive member
+pure func wholeOf(m *ArEntry) string reads heap { sectionOf(box(m.Data), 0, srLen(m.Data)) }
+
+func (*Deb).CheckDebsig
+  requires deb != nil
+  // a value xor an error
+  ensures err == nil ==> signer != nil
+  // success needs the role's own member, the debian-binary member, and exactly one control.* and one data.* member -
+  // the unique members findDeb2Member hands to the loader as well
+  ensures err == nil ==> has(deb.ArContent, "_gpg" ++ sigType) && has(deb.ArContent, "debian-binary")
+  ensures err == nil ==> (exists c *ArEntry, d *ArEntry :: c != nil && d != nil && hasPrefix(c.Name, "control.") && hasPrefix(d.Name, "data.")
+      && (forall k string :: has(deb.ArContent, k) && deb.ArContent[k] != nil && hasPrefix(deb.ArContent[k].Name, "control.") ==> deb.ArContent[k] == c)
+      && (forall k string :: has(deb.ArContent, k) && deb.ArContent[k] != nil && hasPrefix(deb.ArContent[k].Name, "data.") ==> deb.ArContent[k] == d)
+      && validSigList(validKeys, wholeOf(deb.ArContent["debian-binary"]) ++ wholeOf(c) ++ wholeOf(d), wholeOf(deb.ArContent["_gpg" ++ sigType])))
+  loop 1:
+    invariant -1 <= rangeindex && rangeindex < 4 && len(ranged()) == 4
+    invariant ranged()[0] == sig && ranged()[1] == binaryFlag && ranged()[2] == control && ranged()[3] == data
+    invariant forall i int :: 0 <= i && i <= rangeindex ==> ranged()[i] != nil && ranged()[i].Data != nil
+    decreases 4 - rangeindex
+
 property C13: toDecimal, checkAr, LoadAr, parseArEntry, (*Ar).Next
 property C15: toDecimal, checkAr, LoadAr, parseArEntry, (*Ar).Next, findDeb2Member, loadDeb2, loadDeb
+
+property C16: findDeb2Member, (*Deb).CheckDebsig
 
 @*/
